@@ -1,9 +1,10 @@
 (* Correspondence for C12: what the harness observed on ocifilter.AccessChecker and
-   ocifilter.Select over a recording backend, versus the model (Model/Filter.v) and versus
-   the property's specification. *)
+   ocifilter.Select -- one wrapper or several applied to each other -- over a recording
+   backend, versus the model (Model/Filter.v, Model/FilterStack.v) and versus the property's
+   specification. *)
 From Coq Require Import String.
-From OCI Require Export Base.Outcome Model.Filter.
-From OCI Require Import Proofs.Funcs Proofs.FilterSelect.
+From OCI Require Export Base.Outcome Model.Filter Model.FilterStack.
+From OCI Require Import Proofs.Funcs Proofs.FilterSelect Proofs.FilterStack.
 
 (* ---------- the policy, as data ---------- *)
 
@@ -42,35 +43,53 @@ Definition script_step : registry script := fun sc o =>
   | [] => (sc, script_mismatch)
   end.
 
+(* The dynamic type of the registry value a constructor is handed: the value as it is (the
+   recording *ociregistry.Funcs at the bottom, the *accessCheckerRegistry of the wrapper
+   underneath elsewhere), the value inside a struct that embeds the Interface, or behind a
+   named type that declares the eighteen methods itself.  Neither the model nor the
+   specification looks at it: AccessChecker and Select take an ociregistry.Interface and
+   the property is about its methods alone, so a constructor that treats some dynamic type
+   specially (unwraps it, merges with it) disagrees with both. *)
+Inductive dyn := DPlain | DEmbed | DNamed.
+
+(* one wrapper of the configuration: its policy, and how the registry it wraps is presented *)
+Definition lay := (policy * dyn)%type.
+
 Inductive case :=
-  (* a history through a wrapper: per operation the result the caller saw and the backend
-     calls made during it with the backend's answers. ctx_done: every call of the history
-     was made with a context that is already cancelled. Neither the model nor the
-     specification looks at it: the property makes the outcome a matter of the policy and
+  (* a history through a wrapper [top] applied to the wrappers [under] (outermost first)
+     applied to the recording backend: per operation the result the caller saw and the calls
+     made on the recording backend during it with the backend's answers. ctx_done: every call
+     of the history was made with a context that is already cancelled. Neither the model nor
+     the specification looks at it: the property makes the outcome a matter of the policies and
      of the wrapped registry alone (the recording backend answers a cancelled context like
      any other), so a wrapper that answers a cancelled context itself disagrees with both *)
-  | CHist (ctx_done : bool) (p : policy) (hist : list op) (obs : list (result * list (op * result)))
+  | CHist (ctx_done : bool) (top : lay) (under : list lay) (hist : list op)
+          (obs : list (result * list (op * result)))
   (* Repositories yield by yield: the backend's raw yields, the index of the yield at which
      the consumer says stop, the yields the consumer received, the number of backend yields
      that were delivered *)
-  | CSeq (p : policy) (start : bytes) (evs : list yld) (stop : option N)
+  | CSeq (top : lay) (under : list lay) (start : bytes) (evs : list yld) (stop : option N)
          (ys : list yld) (delivered : N)
-  (* a method promoted from the embedded Funcs field: is that field nil, what the call
-     returned, how many calls reached the policy and the backend *)
-  | CPromoted (p : policy) (m : method) (embedded_nil : bool) (r : result) (ncalls : N).
+  (* a method promoted from the embedded Funcs field of the outermost wrapper: is that field
+     nil, what the call returned, how many calls reached the policies and the backend *)
+  | CPromoted (top : lay) (under : list lay) (m : method) (embedded_nil : bool) (r : result) (ncalls : N).
 
-Definition model_step (p : policy) : tstep script op :=
-  with_embedded_funcs declared_all
-    match p with
-    | PCheck rules d => access_checker (check_of rules d) script_step
-    | PAllow names d => select (allow_of names d) script_step
-    end.
+(* the policies of a configuration, outermost first *)
+Definition pols (top : lay) (under : list lay) : list policy := fst top :: map fst under.
 
-Definition model_keep (p : policy) : bytes -> option bytes :=
+Definition policy_checker (p : policy) : checker :=
   match p with
-  | PCheck rules d => ac_keep (check_of rules d)
-  | PAllow names d => ac_keep (select_check (allow_of names d))
+  | PCheck rules d => check_of rules d
+  | PAllow names d => select_check (allow_of names d)
   end.
+Definition policy_listAll (p : policy) : bool :=
+  match p with PCheck _ _ => false | PAllow _ _ => true end.
+
+(* AccessChecker(_, check_of rules d) / Select(_, allow_of names d) as a level of a stack *)
+Definition layer_of (p : policy) : layer := L (policy_checker p) (policy_listAll p).
+
+Definition model_step (ps : list policy) : tstep script op :=
+  stack_step (map layer_of ps) script_step.
 
 Definition stop_fn (stop : option N) : nat -> bool :=
   fun i => match stop with Some k => negb (Nat.eqb i (N.to_nat k)) | None => true end.
@@ -81,13 +100,13 @@ Definition obs_eqb : result * list op -> result * list op -> bool :=
 
 Definition model_agrees (c : case) : bool :=
   match c with
-  | CHist _ p hist obs =>
+  | CHist _ top under hist obs =>
       list_eqb obs_eqb (map (fun x => (fst x, map fst (snd x))) obs)
-               (snd (trun (model_step p) (concat (map snd obs)) hist))
-  | CSeq p start evs stop ys delivered =>
-      let '(ys', n) := repos_drive (model_keep p) (stop_fn stop) 0 evs in
+               (snd (trun (model_step (pols top under)) (concat (map snd obs)) hist))
+  | CSeq top under start evs stop ys delivered =>
+      let '(ys', n) := stack_drive (map layer_of (pols top under)) (stop_fn stop) evs in
       list_eqb yld_eqb ys ys' && N.eqb delivered (N.of_nat n)
-  | CPromoted p m embedded_nil r ncalls =>
+  | CPromoted top under m embedded_nil r ncalls =>
       embedded_nil && result_eqb r (promoted_result m) && N.eqb ncalls 0
   end.
 
@@ -127,6 +146,29 @@ Fixpoint first_rejection (p : policy) (l : list (bytes * akind)) : option err :=
   | (r, k) :: l' => match rejects p r k with Some e => Some e | None => first_rejection p l' end
   end.
 
+(* the rejection a call of method m meets at ONE wrapper: of the repositories involved, or,
+   for Repositories under AccessChecker, of the name "*" for listing (Select always permits
+   the listing itself) *)
+Definition wrapper_rejection (p : policy) (m : method) (o : op) : option err :=
+  match m with
+  | MRepositories => match p with PCheck _ _ => rejects p star AccessList | PAllow _ _ => None end
+  | _ => first_rejection p (involved m o)
+  end.
+
+(* ... and at wrappers applied to each other: a caller talks to the outermost one, which
+   asks its policy before it turns to the registry it wraps, which is the next wrapper, and
+   so on.  EVERY wrapper's policy is consulted, from the outside in; the first that rejects
+   stops the call there, and its error is the one the caller gets. *)
+Fixpoint stack_rejection (ps : list policy) (m : method) (o : op) : option (policy * err) :=
+  match ps with
+  | [] => None
+  | p :: ps' =>
+      match wrapper_rejection p m o with
+      | Some e => Some (p, e)
+      | None => stack_rejection ps' m o
+      end
+  end.
+
 (* the error reaches the caller: as the error result, or as an iterator of exactly one
    yield carrying it; a Select rejection is identified by its code *)
 Definition same_rejection (p : policy) (e e' : err) : bool :=
@@ -147,33 +189,40 @@ Definition rejection_delivered (p : policy) (m : method) (e : err) (r : result) 
 Definition listable (p : policy) (r : bytes) : bool :=
   match rejects p r AccessRead with None => true | Some _ => false end.
 
-Definition spec_op (p : policy) (o : op) (r : result) (calls : list (op * result)) : bool :=
+(* a repository appears in a listing when every wrapper's policy lets it be read *)
+Definition listable_all (ps : list policy) (r : bytes) : bool := forallb (fun p => listable p r) ps.
+
+(* what the caller of an allowed call gets, given the backend's answer: the answer itself,
+   a repository listing with the names not listable removed *)
+Definition expected (ps : list policy) (m : method) (br : result) : result :=
+  match m, br with
+  | MRepositories, Ok (RList l e) => Ok (RList (filter (listable_all ps) l) e)
+  | _, _ => br
+  end.
+
+Definition spec_op (ps : list policy) (o : op) (r : result) (calls : list (op * result)) : bool :=
   match op_method o with
   | None =>
       (* use of a writer obtained earlier: the backend's writer *)
       match calls with [(o', br)] => op_eqb o' o && result_eqb r br | _ => false end
-  | Some MRepositories =>
-      match (match p with PCheck _ _ => rejects p star AccessList | PAllow _ _ => None end) with
-      | Some e => match calls with [] => rejection_delivered p MRepositories e r | _ => false end
+  | Some m =>
+      match stack_rejection ps m o with
+      | Some (p, e) =>
+          (* rejected by some wrapper: the backend is not invoked, that wrapper's error *)
+          match calls with [] => rejection_delivered p m e r | _ => false end
       | None =>
+          (* allowed by all: exactly the direct call *)
           match calls with
-          | [(o', Ok (RList l e))] =>
-              op_eqb o' o && result_eqb r (Ok (RList (filter (listable p) l) e))
-          | [(o', br)] => op_eqb o' o && result_eqb r br
+          | [(o', br)] => op_eqb o' o && result_eqb r (expected ps m br)
           | _ => false
           end
       end
-  | Some m =>
-      match first_rejection p (involved m o) with
-      | Some e => match calls with [] => rejection_delivered p m e r | _ => false end
-      | None => match calls with [(o', br)] => op_eqb o' o && result_eqb r br | _ => false end
-      end
   end.
 
-Fixpoint spec_hist (p : policy) (hist : list op) (obs : list (result * list (op * result))) : bool :=
+Fixpoint spec_hist (ps : list policy) (hist : list op) (obs : list (result * list (op * result))) : bool :=
   match hist, obs with
   | [], [] => true
-  | o :: hist', (r, calls) :: obs' => spec_op p o r calls && spec_hist p hist' obs'
+  | o :: hist', (r, calls) :: obs' => spec_op ps o r calls && spec_hist ps hist' obs'
   | _, _ => false
   end.
 
@@ -186,19 +235,29 @@ Fixpoint first_error (evs : list yld) : list yld :=
 
 (* everything a consumer that never stops is owed: the listable names that the backend
    yields before its first error, in the backend's order, then that error *)
-Definition owed (p : policy) (evs : list yld) : list yld :=
-  map (fun r => (r, None)) (filter (listable p) (items_before_error evs)) ++ first_error evs.
+Definition owed (ps : list policy) (evs : list yld) : list yld :=
+  map (fun r => (r, None)) (filter (listable_all ps) (items_before_error evs)) ++ first_error evs.
 
 Definition obs_ok (c : case) : bool :=
   match c with
-  | CHist _ p hist obs => spec_hist p hist obs
-  | CSeq p start evs stop ys delivered =>
-      list_eqb yld_eqb ys
-        match stop with
-        | None => owed p evs
-        | Some k => firstn (S (N.to_nat k)) (owed p evs)
-        end
-  | CPromoted p m embedded_nil r ncalls =>
+  | CHist _ top under hist obs => spec_hist (pols top under) hist obs
+  | CSeq top under start evs stop ys delivered =>
+      let ps := pols top under in
+      match stack_rejection ps MRepositories (Repositories start) with
+      | Some (p, e) =>
+          (* the listing itself is refused: one yield, with the error *)
+          match ys with
+          | [(item, Some e')] => beqb item [] && same_rejection p e e'
+          | _ => false
+          end
+      | None =>
+          list_eqb yld_eqb ys
+            match stop with
+            | None => owed ps evs
+            | Some k => firstn (S (N.to_nat k)) (owed ps evs)
+            end
+      end
+  | CPromoted top under m embedded_nil r ncalls =>
       (* fails closed: an unsupported-operation error and nothing called *)
       match result_error r with
       | Some e => ecode_eqb (e_code e) UNSUPPORTED && N.eqb ncalls 0
@@ -206,9 +265,9 @@ Definition obs_ok (c : case) : bool :=
       end
   end.
 
-(* non-trivial: the case involves a repository and the policy is not constant (it can tell
+(* non-trivial: the case involves a repository and some policy is not constant (it can tell
    a wrapper that checks the wrong name or kind from one that checks the right one), or it
-   is a listing with something to filter, or a promoted method *)
+   is a listing with something to filter or refused, or a promoted method *)
 Definition policy_mixed (p : policy) : bool :=
   match p with
   | PCheck rules d =>
@@ -218,16 +277,19 @@ Definition policy_mixed (p : policy) : bool :=
 
 Definition nontrivial (c : case) : bool :=
   match c with
-  | CHist _ p hist obs => policy_mixed p && existsb (fun o => match op_repos o with [] => false | _ => true end) hist
-  | CSeq p start evs stop ys delivered =>
-      existsb (fun y => match snd y with None => negb (listable p (fst y)) | Some _ => true end) evs
-  | CPromoted _ _ _ _ _ => true
+  | CHist _ top under hist obs =>
+      existsb policy_mixed (pols top under) &&
+      existsb (fun o => match op_repos o with [] => false | _ => true end) hist
+  | CSeq top under start evs stop ys delivered =>
+      let ps := pols top under in
+      match stack_rejection ps MRepositories (Repositories start) with
+      | Some _ => true
+      | None => existsb (fun y => match snd y with None => negb (listable_all ps (fst y)) | Some _ => true end) evs
+      end
+  | CPromoted _ _ _ _ _ _ => true
   end.
 
 (* ---------- corr_sound ---------- *)
-
-Lemma rejects_check rules d r k : rejects (PCheck rules d) r k = check_of rules d r k.
-Proof. reflexivity. Qed.
 
 Lemma rejects_select names d r k :
   rejects (PAllow names d) r k = select_check (allow_of names d) r k.
@@ -235,30 +297,38 @@ Proof.
   cbn. unfold select_check. destruct (allow_of names d r); [reflexivity|]. destruct k; reflexivity.
 Qed.
 
-Definition policy_checker (p : policy) : checker :=
-  match p with
-  | PCheck rules d => check_of rules d
-  | PAllow names d => select_check (allow_of names d)
-  end.
-Definition policy_listAll (p : policy) : bool :=
-  match p with PCheck _ _ => false | PAllow _ _ => true end.
-
 Lemma rejects_policy p r k : rejects p r k = policy_checker p r k.
 Proof. destruct p; [reflexivity | apply rejects_select]. Qed.
-
-Lemma model_step_ac p st o :
-  model_step p st o = ac_step (policy_checker p) (policy_listAll p) script_step st o.
-Proof. unfold model_step. rewrite declared_all_is_step. destruct p; reflexivity. Qed.
 
 Lemma first_rejection_denial p l : first_rejection p l = first_denial (policy_checker p) l.
 Proof.
   induction l as [|[r k] l IH]; cbn; [reflexivity|]. rewrite rejects_policy, IH. reflexivity.
 Qed.
 
-Lemma involved_checks o m : op_method o = Some m -> m <> MRepositories -> involved m o = pre_checks (policy_listAll (PCheck [] None)) o /\ forall la, pre_checks la o = involved m o.
+(* the specification's table of pairs is the wrapper's list of checks *)
+Lemma wrapper_rejection_denial p m o :
+  op_method o = Some m ->
+  wrapper_rejection p m o = first_denial (policy_checker p) (pre_checks (policy_listAll p) o).
 Proof.
-  intros Hm Hn. destruct o; cbn in Hm; try discriminate; injection Hm as <-; cbn; split; try reflexivity;
-    try (intros la; reflexivity); congruence.
+  intros Hm. destruct o; cbn in Hm; try discriminate; injection Hm as <-;
+    cbn [wrapper_rejection]; try (rewrite first_rejection_denial; reflexivity).
+  destruct p as [rules d|names d]; cbn -[star]; [|reflexivity].
+  destruct (check_of rules d star AccessList); reflexivity.
+Qed.
+
+Lemma stack_rejection_denial ps m o :
+  op_method o = Some m ->
+  option_map snd (stack_rejection ps m o) = stack_denial (map layer_of ps) o.
+Proof.
+  intros Hm. induction ps as [|p ps IH]; cbn [stack_rejection map stack_denial]; [reflexivity|].
+  rewrite (wrapper_rejection_denial p m o Hm). cbn [layer_of l_check l_listAll].
+  destruct (first_denial (policy_checker p) (pre_checks (policy_listAll p) o)); [reflexivity | exact IH].
+Qed.
+
+Lemma writer_op_not_denied ls o : op_method o = None -> stack_denial ls o = None.
+Proof.
+  intros Hm. induction ls as [|l ls IH]; cbn [stack_denial]; [reflexivity|].
+  destruct o; cbn in Hm; try discriminate; cbn; exact IH.
 Qed.
 
 Lemma same_rejection_refl p e : same_rejection p e e = true.
@@ -267,79 +337,79 @@ Proof. destruct p; cbn; [apply err_eqb_refl | now apply ecode_eqb_eq]. Qed.
 Lemma result_eqb_refl r : result_eqb r r = true.
 Proof. now apply result_eqb_eq. Qed.
 
-Lemma listable_visible p l : filter (listable p) l = filter (visible (policy_checker p)) l.
+Lemma rejection_deliver p m o e :
+  op_method o = Some m -> rejection_delivered p m e (deliver o e) = true.
 Proof.
-  apply filter_ext. intros a. unfold listable, visible. now rewrite rejects_policy.
+  intros Hm. destruct o; cbn in Hm; try discriminate; injection Hm as <-; cbn; apply same_rejection_refl.
+Qed.
+
+Lemma listable_visible p r : listable p r = visible (policy_checker p) r.
+Proof. unfold listable, visible. now rewrite rejects_policy. Qed.
+
+Lemma listable_all_visible ps r : listable_all ps r = stack_visible (map layer_of ps) r.
+Proof.
+  unfold listable_all, stack_visible. induction ps as [|p ps IH]; cbn; [reflexivity|].
+  now rewrite listable_visible, IH.
+Qed.
+
+Lemma expected_post ps m o br :
+  op_method o = Some m -> stack_post (map layer_of ps) o br = expected ps m br.
+Proof.
+  intros Hm. destruct o; cbn in Hm; try discriminate; injection Hm as <-;
+    try (rewrite stack_post_other by discriminate; reflexivity).
+  destruct br as [[]| | |]; try (rewrite stack_post_nonlist by discriminate; reflexivity).
+  rewrite stack_post_listing. cbn. f_equal. f_equal. apply filter_ext. intros a.
+  now rewrite listable_all_visible.
 Qed.
 
 Lemma script_step_head o r rest : script_step ((o, r) :: rest) o = (rest, r).
 Proof. cbn. now rewrite op_eqb_refl. Qed.
 
-Lemma spec_hist_sound p hist : forall obs,
+(* one operation: when the model, run on the script that begins with the calls observed,
+   gives the observed result and the observed calls, the observation meets the
+   specification, and the model has consumed exactly those calls *)
+Lemma spec_op_sound ps o r calls rest :
+  obs_eqb (r, map fst calls) (snd (fst (model_step ps (calls ++ rest) o)), snd (model_step ps (calls ++ rest) o)) = true ->
+  spec_op ps o r calls = true /\ fst (fst (model_step ps (calls ++ rest) o)) = rest.
+Proof.
+  unfold model_step. rewrite stack_step_spec. intros H.
+  destruct (stack_denial (map layer_of ps) o) as [e|] eqn:Ed; cbn [fst snd] in H;
+    apply (pair_eqb_eq _ _ result_eqb_eq (list_eqb_eq op_eqb op_eqb_eq)) in H; injection H as Hr Hc.
+  - (* rejected: no call, the error delivered *)
+    destruct calls; [|discriminate]. cbn [app fst]. split; [|reflexivity].
+    unfold spec_op. destruct (op_method o) as [m|] eqn:Em.
+    2:{ rewrite (writer_op_not_denied _ o Em) in Ed. discriminate. }
+    pose proof (stack_rejection_denial ps m o Em) as Hs. rewrite Ed in Hs.
+    destruct (stack_rejection ps m o) as [[p e']|]; [|discriminate]. cbn in Hs. injection Hs as ->.
+    subst r. now apply rejection_deliver.
+  - (* allowed: one call, the backend's own answer *)
+    destruct calls as [|[o' br] [|? ?]]; try discriminate. cbn [map fst] in Hc. injection Hc as ->.
+    cbn [app] in *. rewrite script_step_head in *. cbn [fst snd] in *. split; [|reflexivity].
+    unfold spec_op. rewrite op_eqb_refl. destruct (op_method o) as [m|] eqn:Em.
+    + pose proof (stack_rejection_denial ps m o Em) as Hs. rewrite Ed in Hs.
+      destruct (stack_rejection ps m o) as [[p e']|]; [discriminate|].
+      subst r. rewrite (expected_post ps m o br Em). apply result_eqb_refl.
+    + subst r. rewrite stack_post_other; [apply result_eqb_refl|].
+      intros start ->. discriminate.
+Qed.
+
+Lemma spec_hist_sound ps hist : forall obs,
   list_eqb obs_eqb (map (fun x => (fst x, map fst (snd x))) obs)
-           (snd (trun (model_step p) (concat (map snd obs)) hist)) = true ->
-  spec_hist p hist obs = true.
+           (snd (trun (model_step ps) (concat (map snd obs)) hist)) = true ->
+  spec_hist ps hist obs = true.
 Proof.
   induction hist as [|o hist IH]; intros obs H.
   - destruct obs; [reflexivity | discriminate].
   - destruct obs as [|[r calls] obs]; cbn [trun] in H.
-    + destruct (model_step p (concat (map snd [])) o) as [[s1 r1] t1].
-      destruct (trun (model_step p) s1 hist). discriminate.
-    + cbn [map concat snd fst] in H. rewrite model_step_ac, ac_step_spec in H.
-      cbn [spec_hist].
-      set (chk := policy_checker p) in *. set (la := policy_listAll p) in *.
-      destruct (first_denial chk (pre_checks la o)) as [e|] eqn:Ed.
-      * (* rejected: no call, the error delivered *)
-        destruct (trun (model_step p) (calls ++ concat (map snd obs)) hist) as [s2 rs] eqn:Et.
-        cbn [snd list_eqb] in H. apply andb_true_iff in H as [H1 H2].
-        apply (pair_eqb_eq _ _ result_eqb_eq (list_eqb_eq op_eqb op_eqb_eq)) in H1.
-        injection H1 as Hr Hc. destruct calls; [|discriminate]. cbn [app] in Et.
-        apply andb_true_iff. split.
-        -- subst r. unfold spec_op, deliver.
-           destruct (op_method o) as [m|] eqn:Em.
-           2:{ destruct o; cbn in Em; try discriminate; cbn in Ed; discriminate. }
-           assert (Hrej : forall m', m' = m -> m <> MRepositories ->
-                     first_rejection p (involved m o) = Some e).
-           { intros m' _ Hn. rewrite first_rejection_denial.
-             destruct (involved_checks o m Em Hn) as [_ Hi]. now rewrite <- (Hi la). }
-           destruct m; try (rewrite (Hrej _ eq_refl) by discriminate; cbn;
-                            apply same_rejection_refl).
-           (* Repositories *)
-           destruct o; cbn in Em; try discriminate. subst chk la.
-           destruct p as [rules d|names d]; cbn -[star] in Ed |- *; [|discriminate].
-           destruct (check_of rules d star AccessList) as [e'|]; [|discriminate].
-           injection Ed as ->. cbn. apply err_eqb_refl.
-        -- apply IH. rewrite Et. exact H2.
-      * (* allowed: one call, the backend's own answer *)
-        destruct calls as [|[o' br] calls].
-        { cbn [app] in H.
-          destruct (trun (model_step p) (fst (script_step (concat (map snd obs)) o)) hist).
-          cbn in H. apply andb_true_iff in H as [H1 _].
-          apply andb_true_iff in H1 as [_ H1]. discriminate. }
-        cbn [app map fst snd] in H.
-        destruct (trun (model_step p) (fst (script_step ((o', br) :: calls ++ concat (map snd obs)) o)) hist)
-          as [s2 rs] eqn:Et.
-        cbn [snd list_eqb] in H. apply andb_true_iff in H as [H1 H2].
-        apply (pair_eqb_eq _ _ result_eqb_eq (list_eqb_eq op_eqb op_eqb_eq)) in H1.
-        injection H1 as Hr Ho Hc. subst o'. destruct calls; [|discriminate].
-        cbn [app] in *. rewrite script_step_head in *. rewrite ?op_eqb_refl in Hr. cbn [fst snd] in *.
-        apply andb_true_iff. split.
-        -- unfold spec_op. destruct (op_method o) as [m|] eqn:Em.
-           2:{ rewrite op_eqb_refl. subst r. destruct o; cbn in Em; try discriminate; apply result_eqb_refl. }
-           assert (Hrej : m <> MRepositories -> first_rejection p (involved m o) = None).
-           { intros Hn. rewrite first_rejection_denial.
-             destruct (involved_checks o m Em Hn) as [_ Hi]. now rewrite <- (Hi la). }
-           destruct m; try (rewrite Hrej by discriminate; rewrite op_eqb_refl; subst r;
-                            destruct o; cbn in Em; try discriminate; apply result_eqb_refl).
-           (* Repositories *)
-           destruct o; cbn in Em; try discriminate. subst chk la.
-           assert (Hs : match p with PCheck _ _ => rejects p star AccessList | PAllow _ _ => None end = None).
-           { destruct p as [rules d|names d]; [|reflexivity]. cbn -[star] in Ed |- *.
-             destruct (check_of rules d star AccessList); [discriminate | reflexivity]. }
-           rewrite Hs. subst r. cbn [post repos_result].
-           destruct br as [[]| | |]; rewrite ?op_eqb_refl, ?result_eqb_refl; try reflexivity.
-           cbn [andb repos_result]. rewrite ac_keep_filter, listable_visible. apply result_eqb_refl.
-        -- apply IH. rewrite Et. exact H2.
+    + destruct (model_step ps (concat (map snd [])) o) as [[s1 r1] t1].
+      destruct (trun (model_step ps) s1 hist). discriminate.
+    + cbn [map concat snd fst] in H.
+      pose proof (spec_op_sound ps o r calls (concat (map snd obs))) as Hop.
+      destruct (model_step ps (calls ++ concat (map snd obs)) o) as [[s1 r1] t1].
+      destruct (trun (model_step ps) s1 hist) as [s2 rs] eqn:Et.
+      cbn [snd fst list_eqb] in H, Hop. apply andb_true_iff in H as [H1 H2].
+      destruct (Hop H1) as [Hs ->]. cbn [spec_hist]. rewrite Hs. cbn [andb].
+      apply IH. rewrite Et. exact H2.
 Qed.
 
 (* --- listings yield by yield --- *)
@@ -378,28 +448,36 @@ Proof.
     + specialize (IH i Hi). destruct (repos_drive keep (fun j => negb (Nat.eqb j k)) i evs). exact IH.
 Qed.
 
-Lemma kept_yields_owed p evs : kept_yields (model_keep p) evs = owed p evs.
+Lemma kept_yields_owed ps evs : kept_yields (stack_keep (map layer_of ps)) evs = owed ps evs.
 Proof.
   unfold owed. induction evs as [|[repo [e|]] evs IH]; cbn; try reflexivity.
-  assert (Hk : model_keep p repo = if listable p repo then Some repo else None).
-  { unfold listable. rewrite rejects_policy. destruct p; cbn; unfold ac_keep;
-      match goal with |- context [match ?c with _ => _ end] => destruct c end; reflexivity. }
-  rewrite Hk. destruct (listable p repo); cbn; now rewrite IH.
+  unfold stack_keep at 1. rewrite <- listable_all_visible.
+  destruct (listable_all ps repo); cbn; now rewrite IH.
 Qed.
 
 Lemma corr_sound c : model_agrees c = true -> obs_ok c = true.
 Proof.
-  destruct c as [cd p hist obs | p start evs stop ys delivered | p m en r ncalls]; cbn [model_agrees obs_ok].
+  destruct c as [cd top under hist obs | top under start evs stop ys delivered | top under m en r ncalls];
+    cbn [model_agrees obs_ok].
   - apply spec_hist_sound.
-  - destruct (repos_drive (model_keep p) (stop_fn stop) 0 evs) as [ys' n] eqn:E.
-    intros H. apply andb_true_iff in H as [H _].
-    apply (list_eqb_eq yld_eqb (pair_eqb_eq _ _ beqb_eq (option_eqb_eq err_eqb err_eqb_eq))) in H.
-    subst ys'. apply (list_eqb_eq yld_eqb (pair_eqb_eq _ _ beqb_eq (option_eqb_eq err_eqb err_eqb_eq))).
-    rewrite <- kept_yields_owed. destruct stop as [k|]; unfold stop_fn in E.
-    + pose proof (drive_firstn (model_keep p) (N.to_nat k) evs 0%nat ltac:(lia)) as Hd.
-      rewrite E in Hd. cbn [fst] in Hd. now rewrite Nat.sub_0_r in Hd.
-    + pose proof (drive_always (model_keep p) evs 0%nat) as Hd. unfold always in Hd.
-      rewrite E in Hd. exact Hd.
+  - set (ps := pols top under).
+    assert (Eps : map layer_of ps = layer_of (fst top) :: map layer_of (map fst under)) by reflexivity.
+    rewrite Eps, stack_drive_spec, <- Eps. clear Eps.
+    rewrite (star_denial_is_stack_denial _ start),
+      <- (stack_rejection_denial ps MRepositories (Repositories start) eq_refl).
+    destruct (stack_rejection ps MRepositories (Repositories start)) as [[p e]|]; cbn [option_map snd].
+    + intros H. apply andb_true_iff in H as [H _].
+      apply (list_eqb_eq yld_eqb (pair_eqb_eq _ _ beqb_eq (option_eqb_eq err_eqb err_eqb_eq))) in H.
+      subst ys. cbn. apply same_rejection_refl.
+    + destruct (repos_drive (stack_keep (map layer_of ps)) (stop_fn stop) 0 evs) as [ys' n] eqn:E.
+      intros H. apply andb_true_iff in H as [H _].
+      apply (list_eqb_eq yld_eqb (pair_eqb_eq _ _ beqb_eq (option_eqb_eq err_eqb err_eqb_eq))) in H.
+      subst ys'. apply (list_eqb_eq yld_eqb (pair_eqb_eq _ _ beqb_eq (option_eqb_eq err_eqb err_eqb_eq))).
+      rewrite <- kept_yields_owed. destruct stop as [k|]; unfold stop_fn in E.
+      * pose proof (drive_firstn (stack_keep (map layer_of ps)) (N.to_nat k) evs 0%nat ltac:(lia)) as Hd.
+        rewrite E in Hd. cbn [fst] in Hd. now rewrite Nat.sub_0_r in Hd.
+      * pose proof (drive_always (stack_keep (map layer_of ps)) evs 0%nat) as Hd. unfold always in Hd.
+        rewrite E in Hd. exact Hd.
   - intros H. apply andb_true_iff in H as [H Hn]. apply andb_true_iff in H as [_ H].
     apply result_eqb_eq in H. subst r.
     destruct (promoted_fail_closed (B:=unit) (C:=unit) (fun _ => false) (fun s _ => (s, Panic, [])) tt
